@@ -23,7 +23,7 @@ class P:
 
 
 def mk_system(S, N, kind, rng):
-    labels = ["A", "Bb", "C3", "D"][:S]
+    labels = rng.choice([["A", "Bb", "C3", "D"], ["1", "0", "12", "3"], ["3", "2", "1", "0"], ["S", "SS", "S_", "_S"], ["µ", "Ca2", "x", "X"]])[:S]
     net = RDNetwork(species=[Species(l) for l in labels], reactions=[])
     if kind == "graph":
         space = RDGraphSpace(nodes=[RDGraphSpaceNode() for _ in range(N)], edges=[])
@@ -131,8 +131,15 @@ def lookup_checks(rep, rng, cases):
             tu, qu = rng.choice(list(TIME)), rng.choice(list(TIME))
         scale = {"s": 1.0, "ms": 1e3, "µs": 1e6}
         tvals = [(t / 2.0) * scale[tu] if tu in scale else (t / 2.0) / TIME[tu] for t in ts]
+        qval = (q / 2.0) * scale[qu] if qu in scale else (q / 2.0) / TIME[qu]
+        if not tie and rng.random() < 0.3:
+            # any magnitude: sample times a fraction of a picosecond apart, kept in seconds (a tick is 5e-14 s); the order of
+            # the times and of the query is what the lookup is about, not their size
+            tu = qu = "s"
+            tvals = [(t / 2.0) * 1e-13 for t in ts]
+            qval = (q / 2.0) * 1e-13
         tr = RDTrajectory(data=UnitArray([0.0] * len(ts), "molecule"), t_sample=UnitArray(tvals, tu), system=system)
-        qv = UnitValue((q / 2.0) * scale[qu] if qu in scale else (q / 2.0) / TIME[qu], qu)
+        qv = UnitValue(qval, qu)
         rep.case(["lookup", ts, q, tu, qu])
         try:
             got = {p: tr.get_sample_index(qv, p) for p in ("infeq", "supeq", "closest")}
